@@ -178,3 +178,66 @@ end XPathV.Theorems.NonVacuity.C13
 section AxiomAudit
 open XPathV.Theorems.NonVacuity.C13
 end AxiomAudit
+
+/-! ## the whole C02 fragment (`Frag2`): predicates that are not in `PredSem.Frag` -/
+namespace XPathV.Theorems.NonVacuity.C13
+open XPathV XPathV.Model XPathV.Theorems.NonVacuity
+open XPathV.PathSem XPathV.PredSem XPathV.PredSem2 XPathV.Compose XPathV.Compose2 XPathV.Compose3 XPathV.PosSem
+
+attribute [local instance] toyAlg
+
+/-- `/r/*[@x < @y]` (a path compared with a path, relational operator: in `Frag2`, not in `Frag`)
+addresses exactly `b` (`2 < 3`) -/
+def q3 : Ast :=
+  .filter (.axis (chE "") (.axis (chE "r") (.root "/")))
+    (.oper "<" (.axis (atA "x") .none) (.axis (atA "y") .none))
+/-- `../*[contains(@x, '1')]/text()` (a string test on a flat path: in `Frag2`, not in `Frag`) -/
+def p3 : Ast :=
+  .axis chText (.filter (.axis (chE "") (.axis parentAny .none))
+    (.call "contains" "" (.acons (.axis (atA "x") .none) (.acons (.str "1") .anil))))
+
+theorem q3_abs : AbsFrag2 q3 :=
+  .filter _ _ (.axis _ _ (.axis _ _ (.root _) (by decide)) (by decide))
+    (.cmpPath _ _ _ (by decide) (.axis _ _ .none (by decide)) (.axis _ _ .none (by decide)))
+theorem p3_rel : RelFrag2 p3 :=
+  .axis _ _ (.filter _ _ (.axis _ _ (.axis _ _ .none (by decide)) (by decide))
+    (.strPath _ _ _ _ (by decide) (.axis _ _ .none (by decide))
+      (.axis _ _ (by decide) .none))) (by decide)
+theorem q3_parsed : ParsesTo "/r/*[@x < @y]" q3 := ApiSem.parsesTo_eq (by decide +kernel)
+theorem qp3_parsed : ParsesTo "/r/*[@x < @y]/../*[contains(@x, '1')]/text()" (appendPath2 q3 p3) :=
+  ApiSem.parsesTo_eq (by decide +kernel)
+theorem q3_unique : nodesOf (Spec.eval (F := Int) d0 q3 ⟨.node 0, 1, 1⟩) = [.node 4] := by decide +kernel
+
+/-- **`C13_relative_compose_full`**: all hypotheses discharged (`WF`, `nsIface`, `HashInj`, `Frag2`,
+`RelFrag2`, "`q` addresses exactly `n`", two `build = .ok`); both plans select the text of `a[1]` -/
+theorem C13_relative_compose_full_instance : ∃ (o o' : BOut), ∃ o1 o2,
+    sel (F := Int) d0 {} o.q (.node 4) = .ok o1 ∧ sel (F := Int) d0 {} o'.q (.node 0) = .ok o2 ∧
+    (∀ x, x ∈ refs o1 ↔ x ∈ refs o2) ∧
+    nodesOf (Spec.eval (F := Int) d0 p3 ⟨.node 4, 1, 1⟩) = [.node 3] := by
+  obtain ⟨o, hb⟩ : ∃ o, build (fun _ => true) 100 true false p3 {} {} = .ok o := exists_ok (by decide +kernel)
+  obtain ⟨o', hb'⟩ : ∃ o, build (fun _ => true) 100 true false (appendPath2 q3 p3) {} {} = .ok o :=
+    exists_ok (by decide +kernel)
+  obtain ⟨o1, o2, h1, h2, h3⟩ := Theorems.C13.C13_relative_compose_full (F := Int) wf_d0 {} rfl
+    hashInj_d0 (fun _ => true) 100 q3_abs.frag2 p3_rel (.node 4) q3_unique {} {} o o' hb hb'
+  exact ⟨o, o', o1, o2, h1, h2, h3, by decide +kernel⟩
+
+/-- **`C13_absolute_build_full`** (`AbsFrag2`, `build = .ok`) on `/r/*[@x < @y]/../*[contains(@x, '1')]/text()`,
+from `a[2]` and from an attribute of `b`: the same sequence -/
+example : ∃ (o : BOut), sel (F := Int) d0 {} o.q (.node 6) = sel (F := Int) d0 {} o.q (.attr 4 1) := by
+  obtain ⟨o, hb⟩ : ∃ o, build (fun _ => true) 100 true false (appendPath2 q3 p3) {} {} = .ok o :=
+    exists_ok (by decide +kernel)
+  exact ⟨o, Theorems.C13.C13_absolute_build_full (F := Int) d0 {} (fun _ => true) 100 true false
+    (appendPath2_absFrag2 q3_abs p3_rel) {} {} o hb _ _⟩
+/-- `C13_compose_spec_full`, `C13_absolute_spec_full`, `C13_compose_build_full` -/
+example := Theorems.C13.C13_compose_spec_full (F := Int) d0 q3_abs.frag2 p3_rel ⟨.node 6, 2, 3⟩ (.node 3)
+example := Theorems.C13.C13_absolute_spec_full (F := Int) d0 q3_abs ⟨.node 6, 2, 3⟩ ⟨.attr 4 1, 1, 1⟩
+/-- the right-hand side of `C13_compose_spec_full` is inhabited: `q3` selects `b` from the comment
+node, `p3` selects `t` from `b`, hence `q3/p3` selects `t` -/
+example : (.node 3 : Ref) ∈ nodesOf (Spec.eval (F := Int) d0 (appendPath2 q3 p3) ⟨.node 7, 1, 1⟩) :=
+  (Theorems.C13.C13_compose_spec_full (F := Int) d0 q3_abs.frag2 p3_rel ⟨.node 7, 1, 1⟩ (.node 3)).2
+    ⟨.node 4, by decide +kernel, by decide +kernel⟩
+/-- the old fragments embed -/
+example : AbsFrag2 q2 := Theorems.C13.C13_absFrag_embeds q2_abs
+example : RelFrag2 p2 := Theorems.C13.C13_relFrag_embeds p2_rel
+
+end XPathV.Theorems.NonVacuity.C13
